@@ -484,3 +484,101 @@ def check_C14(chk):
                 "unchanged; the listed known finding (ipps default 443) is admitted only for its input class")
     chk.assumptions = ["hook verif_transport_url is the function the clients call (client.rs)", "independent splitter"]
     uri_pipeline(chk, "C14", False, True)
+
+
+def check_C19(chk):
+    q = chk.tier == "quick"
+    chk.rule = ("(a,b) every sequence of <= 4 (5 thorough) add(kind, name, value) calls over 3 kinds x 2 names x 2 values "
+                "from the empty message and from 3 parser-shaped messages with repeated groups (TLC prints each history), "
+                "replayed on IppAttributes with groups(), groups_of(k) for every k and into_groups() recorded; (c) the "
+                "iterator of every value (and sub-value) of C01's corpus plus collections whose member names sort "
+                "differently under byte / locale / length orders; distinct = histories + values; judged by Trace_Attrs")
+    chk.assumptions = ["member-name byte order is computed by the harness (TLC cannot order strings)", "TLC"]
+    build_harness()
+    wd = workdir("C19")
+    cases = os.path.join(wd, "cases.ndjson")
+    base = dict(GKinds={1, 2, 4}, ANames={"x", "y"}, AVals={1, 2})
+    inv = ["BuiltByAdds", "FoldAgrees", "LookupOrdered", "OneGroupPerKindWhenBuilt"]
+    r = mc("C19", "mc_attrs", "MC_Attrs.tla", dict(base, MaxAdds=4 if q else 5), inv, coverage_actions=["Add"])
+    chk.add_mc(r, "MC_Attrs MaxAdds=%d" % (4 if q else 5))
+    r = mc("C19", "gen_attrs", "MC_Attrs.tla", dict(base, MaxAdds=3 if q else 4), inv + ["Gen"], case_file=cases)
+    chk.models.append({"model": "MC_Attrs (generator) MaxAdds=%d" % (3 if q else 4), "behaviours": r["cases"]})
+    wirecases = os.path.join(wd, "wirecases.ndjson")
+    r2 = mc("C19", "mc_wire", "MC_Wire.tla", dict(WIRE_CONST, MaxTok=5 if q else 6), ["ParserReadsRFC", "GenOp"],
+            constraint="Bound", case_file=wirecases)
+    chk.add_mc(r2, "MC_Wire (values for traversal)")
+    out = os.path.join(wd, "run")
+    harness("vh", ["attrs", "--out", out, "--seed", chk.seed, "--cases", cases, "--wirecases", wirecases])
+    run = run_sample(chk, out)
+    validate_with_retries(chk, "trace_attrs", "Trace_Attrs.tla", os.path.join(out, "trace.ndjson"),
+                          os.path.join(out, "trace.side.ndjson"),
+                          describe=lambda ev: ("container after the recorded add() calls is not the model's" if ev.get("ev") == "attrs"
+                                               else "value traversal visited %s for value %s" % (
+                                                   json.dumps(trunc_json(ev.get("seq"), 100))[:300],
+                                                   json.dumps(trunc_json(ev.get("v"), 100))[:300])))
+
+
+ALL_OPS = {"PrintJob", "CreateJob", "SendDocument", "CancelJob", "GetJobAttributes", "GetJobs", "GetPrinterAttributes",
+           "PurgeJobs", "CupsGetPrinters", "CupsDeletePrinter"}
+
+
+def ops_describe(ev):
+    k = ev.get("ev")
+    if k == "order":
+        import binascii
+        names = []
+        for h in ev.get("names", []):
+            try:
+                names.append(binascii.unhexlify(h).decode("utf-8", "replace"))
+            except Exception:
+                names.append(h)
+        return "first-group attribute order on the wire violates RFC 8011 4.1.4-4.1.5 (%s): %s" % (ev.get("op"), names)
+    return "request built for %s by %s is not the one its arguments describe: %s" % (
+        ev.get("op", ev.get("kind")), ev.get("path", "constructor"), json.dumps(trunc_json(ev.get("req"), 120))[:700])
+
+
+def check_C10(chk):
+    q = chk.tier == "quick"
+    chk.rule = ("every sequence of <= 3 (4 thorough) builder calls for each of the 10 operations (2 strings, 3 job "
+                "attributes two of which share a name, both booleans, 0..2 requested names) enumerated by TLC, replayed on "
+                "the real builders and on the struct constructors with concretised arguments (any UTF-8, boundary job "
+                "ids, 10 target URI forms, empty / blocking / async payloads), plus 400 raw constructor calls; distinct = "
+                "(operation, call sequence, path); judged by Trace_Ops against IppOps.Build")
+    chk.assumptions = ["IppOperation::version can only be overridden by a foreign type: the default is checked", "TLC"]
+    build_harness()
+    wd = workdir("C10")
+    cases = os.path.join(wd, "cases.ndjson")
+    base = dict(MaxExtra=0, HeaderAttrs="<- HeaderAttrs5", OpsUnderTest=ALL_OPS)
+    r = mc("C10", "mc_ops", "MC_Ops.tla", dict(base, MaxCalls=3 if q else 4), ["BuildersAsDeclared", "OpGroupFirst", "GenCalls"],
+           case_file=cases, coverage_actions=["Next"], timeout=3000)
+    chk.add_mc(r, "MC_Ops MaxCalls=%d" % (3 if q else 4))
+    out = os.path.join(wd, "run")
+    harness("vh", ["ops", "--prop", "C10", "--out", out, "--seed", chk.seed, "--cases", cases])
+    run_sample(chk, out)
+    validate_with_retries(chk, "trace_ops", "Trace_Ops.tla", os.path.join(out, "trace.ndjson"),
+                          os.path.join(out, "trace.side.ndjson"), describe=ops_describe)
+
+
+def check_C09(chk):
+    q = chk.tier == "quick"
+    chk.rule = ("M: for every operation, <= 1 builder call and <= 2 further additions (job-id, job-uri, "
+                "requesting-user-name, an unrelated name; operation or job group) TLC checks the header order under "
+                "EVERY permutation of the remaining attributes; R: each such construction is built on 64 (512 thorough) "
+                "fresh instances (fresh RandomState each), the first group's attribute order is read from to_bytes() by "
+                "the independent tokenizer; distinct = distinct (construction, observed order) pairs; judged by "
+                "Trace_Ops.HeaderOrderOK")
+    chk.assumptions = ["a randomly keyed map cannot be forced through every order: M covers all orders of the design, "
+                       "R samples the real map", "at most one of printer-uri / job-uri (RFC 8011 4.1.5)"]
+    build_harness()
+    wd = workdir("C09")
+    cases = os.path.join(wd, "cases.ndjson")
+    r = mc("C09", "mc_ops", "MC_Ops.tla", dict(MaxCalls=1, MaxExtra=2, HeaderAttrs="<- HeaderAttrs5", OpsUnderTest=ALL_OPS),
+           ["HeaderFirst", "OpGroupFirst", "GenExtras"], case_file=cases, coverage_actions=["Next", "Extra"], timeout=3000)
+    chk.add_mc(r, "MC_Ops MaxCalls=1 MaxExtra=2 (all permutations)")
+    out = os.path.join(wd, "run")
+    harness("vh", ["ops", "--prop", "C09", "--out", out, "--seed", chk.seed, "--cases", cases,
+                   "--instances", 64 if q else 512], timeout=7200)
+    run = run_sample(chk, out)
+    chk.extra["distinct_orders_seen"] = run.get("distinct_orders_seen")
+    validate_with_retries(chk, "trace_ops", "Trace_Ops.tla", os.path.join(out, "trace.ndjson"),
+                          os.path.join(out, "trace.side.ndjson"), describe=ops_describe)
